@@ -8,6 +8,7 @@ From Coq Require Import NArith List Bool.
 From Mpc Require Import Base.Label Circuit.Circuit Circuit.Garble Circuit.GGarble Circuit.GGarbleProof
      Circuit.RunC04.
 Import ListNotations.
+From Mpc Require Gen.State Base.StateExpected Base.StateCheck Base.StatePkgs.
 
 (* The generic gate code, instantiated with the concrete fixed-key hashes, IS
    the C01 model's garbler (which reproduces the implementation byte for
@@ -72,3 +73,16 @@ Theorem C04_sha2pc_output_hints_refuted :
     r_pairs Rsym (sym_transcript_with_hints perm c x) <> [].
 Proof. exact sha2pc_output_hints_refuted. Qed.
 Print Assumptions C04_sha2pc_output_hints_refuted.
+
+(* STATE INVENTORY (finite obligation on the model regenerated from the source, checked by
+   computation).  The struct fields and package-level variables of the Go packages this
+   property is anchored in — circuit, compiler/ssa, sha2pc — as emitted from /repo's current
+   source by harness/gen_state.go (Gen/State.v) are exactly those the models above were written
+   against (Base/StateExpected.v).  A new field or variable (a cache, a memo, a pool, a counter,
+   a changed field type) is state the models do not have: this obligation then breaks and the
+   property is no longer shown to hold until the change has been reviewed against the model. *)
+Theorem C04_state_inventory :
+  Mpc.Base.StateCheck.state_unchanged Mpc.Gen.State.state_inventory Mpc.Base.StateExpected.expected_state
+    Mpc.Base.StatePkgs.pkgs_C04 = true.
+Proof. vm_compute. reflexivity. Qed.
+Print Assumptions C04_state_inventory.
